@@ -24,6 +24,20 @@ def run(tier: str) -> int:
     recs = pmap(drv.exec_hs, scns)
     rejects, consumed, wall = validate_traces("HitsoundTrace", "HitsoundTrace", recs, tag=f"c18-{tier}")
     chk.add_traces(recs, rejects)
+    # EXTENSION beyond C18 (same package, reamber/algorithms/osu): replay parsing.  ReplayMC is model-checked (the pandas
+    # pipeline = the documented actions after the first state-changing frame), every frame list of the model is replayed
+    # into parse_replay_actions / parse_replays_error and judged by ReplayTrace; disagreements are observations
+    from harness.drivers import replayx
+    rm = run_tlc("ReplayMC", f"ReplayMC_{tier}", workers=4, timeout=3000)
+    chk.add_model(f"ReplayMC_{tier}", rm, "EXTENSION: parse_replay_actions pipeline vs documented actions (PipelineAfterBaseline, PipelineSubset)")
+    rs = run_tlc("ReplayMC", "ReplayMC_sanity", workers=1, timeout=600)
+    if rs.ok:
+        chk.model_violations.append("vacuity: ReplayMC_sanity (pipeline = documented actions) was expected to be violated")
+    fl = [p for p in rm.prints if isinstance(p, dict) and p.get("kind") == "replay"]
+    rr.shuffle(fl)
+    xrecs = pmap(replayx.exec_replay, fl[: (5000 if tier == "quick" else 30000)])
+    xrej, _, _ = validate_traces("ReplayTrace", "ReplayTrace", xrecs, tag=f"c18x-{tier}")
+    chk.add_traces(xrecs, xrej)
     chk.nontrivial = len({(str(x["src"]), str(x["tgt"])) for x in recs if x["src"]})
     chk.rule = ("TLC enumerates every source of <= MaxSrc sounding notes at one time (8 clap/finish/whistle sets x volumes x "
                 "files) x 0..2 target notes, checks the transcribed slot machine and emits each; a seeded sample is executed with "
